@@ -108,15 +108,18 @@ def loop_order(imp, method, pred_re):
     forms = {
         "cancel": r"if let Some\(reason\) = \w+\.cancelled\.clone\(\) \{ return [\w:]*\(?[\w:]*Cancelled\(reason\)\)?;? \}",
         "pred": pred_re,
-        "deadline": r"if now >= deadline \{ return [\w:]*\(?[\w:]*Timeout\)?;? \}",
-        "park": r"\. ?wait_timeout\( ?\w+, ?(?:deadline - now|timeout) ?\)",
+        # any test that returns Timeout / any argument of the wait: WHICH test and WHICH argument is the
+        # clock fact below
+        "deadline": r"if ([^{}]*) \{ return [\w:]*\(?[\w:]*Timeout\)?;? \}",
+        "park": r"\. ?wait_timeout\( ?\w+, ?([^(),]*)\)",
     }
-    pos = {}
+    pos, grp = {}, {}
     for name, rx in forms.items():
         ms = list(re.finditer(rx, n))
         if len(ms) != 1:
             raise ExtractError(f"{method}: loop statement `{name}` found {len(ms)} times")
         pos[name] = ms[0].start()
+        grp[name] = ms[0].group(1).strip() if ms[0].groups() else ""
     # every one of them must be a statement of the loop body itself or of a bare `{ … }` block in it
     # (a scoped guard); anything else (if/match/inner loop) is not a recognised form
     scoped = False
@@ -136,11 +139,16 @@ def loop_order(imp, method, pred_re):
               and not re.search(r"\bdrop\s*\(", lb) and not re.search(r"\.lock\(\)", lb))
     if not locks:
         raise ExtractError(f"{method}: no `.lock()`")
-    # `now` must be read after the condition test has been passed over, i.e. the timeout handed to the
-    # wait is measured from the same `now` the deadline test used
-    if not re.search(r"let now = Instant::now\(\);", n):
-        raise ExtractError(f"{method}: `let now = Instant::now()` missing")
-    return [k for k, _ in sorted(pos.items(), key=lambda kv: kv[1])], atomic
+    # FACT: the deadline is re-derived from the monotonic clock on every pass: `let now = Instant::now();`
+    # inside the loop before the test `now >= deadline`, and the wait gets `deadline - now` (directly or via
+    # `let timeout = deadline - now;`).  Every other form (a sticky `timed_out()` flag, a duration computed
+    # once before the loop, …) is the pessimistic fact `false`.
+    mnow = re.search(r"let now = Instant::now\(\);", n)
+    arg = grp["park"]
+    arg_ok = arg == "deadline - now" or (arg == "timeout" and re.search(r"let timeout = deadline - now;", n) is not None)
+    clock = (mnow is not None and mnow.start() < pos["deadline"] and grp["deadline"] == "now >= deadline" and arg_ok
+             and len(re.findall(r"Instant::now\(\)", n)) == 1)
+    return [k for k, _ in sorted(pos.items(), key=lambda kv: kv[1])], atomic, clock
 
 
 def extract():
@@ -151,14 +159,15 @@ def extract():
         conds, kinds = notify_entry(imp, method)
         facts["table"][key] = conds            # None = never, [] = unconditional
         facts["notify_calls"][method] = kinds
+    facts["notifyAll"] = all(k == "all" for ks in facts["notify_calls"].values() for k in ks)
     # the signalling methods run under the mutex as one region: exactly one `.lock()` each
     for _, method in METHODS:
         if len(re.findall(r"\.lock\(\)", fn_body(imp, method))) != 1:
             raise ExtractError(f"{method}: not exactly one lock region")
-    facts["creditLoop"], facts["creditAtomic"] = loop_order(
+    facts["creditLoop"], facts["creditAtomic"], facts["creditClock"] = loop_order(
         imp, "wait_for_credit",
         r"if in_flight == 0 \|\| [^{}]*window_bytes[^{}]*\{ return Ok\(\(\)\);? \}")
-    facts["reconnectLoop"], facts["reconnectAtomic"] = loop_order(
+    facts["reconnectLoop"], facts["reconnectAtomic"], facts["reconnectClock"] = loop_order(
         imp, "wait_for_reconnect",
         r"if let Some\(pending\) = \w+\.pending_resume\.take\(\) \{ return [\w:]*ResumeReady\(pending\);? \}")
     cb = norm(fn_body(imp, "wait_for_credit"))
@@ -191,7 +200,12 @@ def render(f):
         "/-- is the mutex held from the tests to `wait_timeout` without a gap -/",
         f"def creditAtomic : Bool := {'true' if f['creditAtomic'] else 'false'}",
         f"def reconnectAtomic : Bool := {'true' if f['reconnectAtomic'] else 'false'}",
-        "def cfg : Cfg := ⟨table, creditLoop, reconnectLoop, creditAtomic, reconnectAtomic⟩",
+        "/-- does the deadline test re-read the monotonic clock on every pass (and the wait get `deadline - now`) -/",
+        f"def creditClock : Bool := {'true' if f['creditClock'] else 'false'}",
+        f"def reconnectClock : Bool := {'true' if f['reconnectClock'] else 'false'}",
+        "/-- is every notification `notify_all` -/",
+        f"def notifyAll : Bool := {'true' if f['notifyAll'] else 'false'}",
+        "def cfg : Cfg := ⟨table, creditLoop, reconnectLoop, creditAtomic, reconnectAtomic, creditClock, reconnectClock, notifyAll⟩",
         "end Repe.Gen.Wake",
     ]) + "\n"
 
